@@ -26,6 +26,7 @@ type env struct {
 	tab      map[string]*sexpr
 	what     string // for error messages
 	cur      *state // the state contract evaluation started in (ghost locals live there)
+	topHint  types.Type // expected type of the whole expression (spec function result)
 }
 
 func (e *env) with(st *state) *env {
@@ -68,7 +69,9 @@ func (e *env) eval(x *sexpr) Val {
 	}
 	n := *e
 	n.tab = x.tab
-	return n.ev(x.e, nil)
+	h := n.topHint
+	n.topHint = nil
+	return n.ev(x.e, h)
 }
 
 func boolVal(s string) Val { return Val{T: types.Typ[types.Bool], S: []string{s}} }
@@ -294,7 +297,11 @@ func (e *env) ev(x ast.Expr, hint types.Type) Val {
 			return boolVal(or(e.ev(n.X, nil).S[0], e.ev(n.Y, nil).S[0]))
 		}
 		a := e.ev(n.X, nil)
-		b := e.ev(n.Y, nil)
+		var bh types.Type
+		if a.K == nil && isInteger(a.T) && n.Op != token.SHL && n.Op != token.SHR {
+			bh = a.T
+		}
+		b := e.ev(n.Y, bh)
 		if a.K == nil && b.K == nil && !isInteger(a.T) || (a.K == nil && !isInteger(a.T)) || (b.K == nil && !isInteger(b.T)) {
 			// non-integer comparison
 			if n.Op != token.EQL && n.Op != token.NEQ {
@@ -651,8 +658,6 @@ func (e *env) call(n *ast.CallExpr, hint types.Type) Val {
 			e.fail("%s body must be boolean", name)
 		}
 		bs := body.S[0]
-		inner := sub.st.pc[len(ne.st.pc):]
-		_ = inner
 		if name == "forall" {
 			return boolVal(fmt.Sprintf("(forall (%s) %s)", strings.Join(binders, " "), implies(and(facts...), bs)))
 		}
@@ -661,6 +666,10 @@ func (e *env) call(n *ast.CallExpr, hint types.Type) Val {
 		c := e.ev(n.Args[0], nil)
 		a := e.ev(n.Args[1], hint)
 		b := e.ev(n.Args[2], hint)
+		if a.K != nil && b.K != nil {
+			a = u.mat(a, hint)
+			b = u.mat(b, hint)
+		}
 		if a.K != nil {
 			a = u.mat(a, b.T)
 		}
@@ -898,7 +907,7 @@ func (e *env) applySpec(sf *specFun, n *ast.CallExpr, hint types.Type) Val {
 	if e.depth > 40 {
 		e.fail("spec recursion too deep at %s", sf.name)
 	}
-	sub := &env{u: u, st: e.st, old: e.old, pkg: spkg, vars: map[string]Val{}, depth: e.depth + 1, what: e.what + "/" + sf.name}
+	sub := &env{u: u, st: e.st, old: e.old, pkg: spkg, vars: map[string]Val{}, depth: e.depth + 1, what: e.what + "/" + sf.name, cur: e.cur, topHint: rt}
 	for i, pn := range sf.pnames {
 		sub.vars[pn] = args[i]
 	}
